@@ -129,6 +129,39 @@ func C09(run *report.Run) {
 		pl.DiscProp, pl.VariantKeys, pl.Ambiguous = discInfo(c.Spec)
 		add(c.ID, c.Attrs, c.Spec, pl, "")
 	}
+	// (5) credentials travel as request headers: the client must put them where the server's security
+	// middleware and Parse() read them (scheme kinds × header-name shapes × document/operation level ×
+	// with or without an ordinary header parameter next to them)
+	type sec struct {
+		key, hdr string
+		scheme   spec.SecScheme
+	}
+	secs := []sec{{"bearer", "Authorization", spec.SecScheme{Key: "bearer", Type: "http", Scheme: "bearer"}}}
+	for _, n := range []string{"X-Key", "X-Shop-Key", "Access-Token", "x-lower-case", "X_Under", "Token"} {
+		secs = append(secs, sec{"k", n, spec.SecScheme{Key: "k", Type: "apiKey", In: "header", Name: n}},
+			sec{n, n, spec.SecScheme{Key: n, Type: "apiKey", In: "header", Name: n}})
+	}
+	for _, sc := range secs {
+		for _, level := range []string{"doc", "op"} {
+			for _, withParam := range []bool{false, true} {
+				s, _, op := cells.Base()
+				s.Comp.Security = []spec.SecScheme{sc.scheme}
+				req := []spec.SecReq{{sc.scheme.Key}}
+				if level == "doc" {
+					s.Security = &req
+				} else {
+					op.Security = &req
+				}
+				pds := []drv.ParamDecl{{Name: sc.hdr, In: "header", Required: true, Type: "string"}}
+				if withParam {
+					op.Params = []*spec.Param{{Name: "X-Other", In: "header", Required: true, Schema: spec.T("string")}}
+					pds = append(pds, drv.ParamDecl{Name: "X-Other", In: "header", Required: true, Type: "string"})
+				}
+				id := fmt.Sprintf("security[scheme=%s,key=%s,header=%s,level=%s,param=%v]", sc.scheme.Type, sc.scheme.Key, sc.hdr, level, withParam)
+				add(id, map[string]string{"fam": "security", "scheme": sc.scheme.Type, "level": level}, s, &drv.C09Payload{Method: "GET", Template: "/p", Params: pds}, "")
+			}
+		}
+	}
 	st := RunBatch(run, env, states, 250)
 	run.Cov["states"] = st.Healthy
 	run.Cov["transitions"] = st.Counters["calls"]
@@ -138,6 +171,6 @@ func C09(run *report.Run) {
 	run.Cov["masked_states"] = st.Masked
 	run.Cov["masked_why"] = st.MaskedWhy
 	run.Cov["enumerated_states"] = st.States
-	run.Cov["rule"] = "state = one operation (single parameter cells of every leaf kind × location × required × declaration form; name shapes per location; one parameter of each location of 5 kinds + body kinds under base-path forms; a JSON request body of every schema kind × ref/inline/alias form × inline/component body), compiled with the client; transition = one value of the generated Params type enumerated by reflection (per-location string domains with reserved characters, boundary numbers, zoned times, arrays of 1-2 elements; full product up to 400 else single-group sweeps) sent with Client.<Op> through an in-memory transport that re-parses the wire URI; oracle = the handler's Parse() result equals the value sent, every wire parameter text lexes under its declared type, and kin-openapi's request validator accepts the request"
+	run.Cov["rule"] = "state = one operation (single parameter cells of every leaf kind × location × required × declaration form; name shapes per location; one parameter of each location of 5 kinds + body kinds under base-path forms; a JSON request body of every schema kind × ref/inline/alias form × inline/component body; bearer and apiKey-header credentials over header-name shapes), compiled with the client; transition = one value of the generated Params type enumerated by reflection (per-location string domains with reserved characters, boundary numbers, zoned times, arrays of 1-2 elements; full product up to 400 else single-group sweeps) sent with Client.<Op> through an in-memory transport that re-parses the wire URI; oracle = the handler's Parse() result equals the value sent, every wire parameter text lexes under its declared type, and kin-openapi's request validator accepts the request"
 	run.Assumptions = []string{"§11 restrictions: path values non-empty and '/'-free, arrays non-empty, header strings visible ASCII without surrounding space, times compared as instants, no NaN/Inf"}
 }
